@@ -573,7 +573,9 @@ def _encode_one_float_array(values, digits, reference):
     if reference == 'fpzip':
         return _fpzip_encoded('fpzip', values, digits=digits)
 
-    # Prep the array
+    # Prep the array. The scale factor and offset below need double precision
+    # arithmetic whatever the precision of the data.
+    values = np.asarray(values, dtype=np.float64)
     shape = values.shape
     raveled = values.ravel()
 
